@@ -63,12 +63,11 @@ theorem Prepare_shared_mappings (kf : Nat → Nat) (cfg : PrepConfig) (s : Scree
   holdout_shared_maps (prepare_ok h).2.2.2.2.2
 
 /-- **Single-sample unobserved plates, end to end.** When the sample-segregating or the pairwise generator is used -- with or
-    without an initial generator, with no smoother or any smoother other than the ensemble -- unobserved experiments of the
+    without an initial generator, with no smoother or ANY shipped smoother (the ensemble included) -- unobserved experiments of the
     saved training screen that share a plate label belong to one sample. -/
 theorem Prepare_unobserved_plates_single_sample (kf : Nat → Nat) (cfg : PrepConfig) (s : Screen) (p : Prepared)
     (h : prepare kf cfg s = .ok p) (g : Generator) (hgen : cfg.generator = some g)
-    (hg : (∃ mx perms, g = .segregating mx perms) ∨ (∃ a b c d e, g = .pairwise a b c d e))
-    (hsm : ∀ a b c d e, cfg.smoother ≠ some (.ensemble a b c d e)) :
+    (hg : (∃ mx perms, g = .segregating mx perms) ∨ (∃ a b c d e, g = .pairwise a b c d e)) :
     SingleSample (rowsOf p.training) := by
   obtain ⟨hf, hi, hgs, hr, hsmo, hho⟩ := prepare_ok h
   have mf := comboFilter_made hf
@@ -96,7 +95,7 @@ theorem Prepare_unobserved_plates_single_sample (kf : Nat → Nat) (cfg : PrepCo
     cases hs : cfg.smoother with
     | none => rw [smnone hs]; exact ssr
     | some x =>
-      refine smoother_singleSample (fun a b c d e hx => hsm a b c d e (by rw [hs, hx])) (smsome x hs) ssr
+      exact smoother_singleSample x (smsome x hs) ssr
   exact sssm.sublist (Prepare_test_fully_observed_train_mask kf cfg s p h).2
 
 /-- the plate-balanced hold-out leaves every observed experiment in the training half (as an observed experiment) -/
